@@ -346,3 +346,43 @@ def only_called_from(fx, fn, allowed):
         first = False
         work.extend(cs)
     return True
+
+
+def reach_bool_sensitive(fx, f, starts, stop=(), within=None, limit=6000):
+    """blocks reachable from `starts`, path sensitive in boolean temporaries: a block that sets `_t = const b` (the arms of `matches!`, `&&`,
+    `||`) and later switches on `_t` continues on the matching edge only.  `stop` blocks are reached but not expanded."""
+    seen = set()
+    out = set()
+    work = [(b, ()) for b in starts]
+    while work:
+        b, env = work.pop()
+        if (b, env) in seen or (within is not None and b not in within) or len(seen) > limit:
+            continue
+        seen.add((b, env))
+        out.add(b)
+        if b in stop:
+            continue
+        e = dict(env)
+        for st in f.blocks[b]["s"]:
+            if st[0] == "a" and not st[1][1]:
+                l = st[1][0]
+                if st[2][0] == "use" and st[2][1][0] == "k" and fx.tys(f.locals[l]) == "bool":
+                    e[l] = const_int(st[2][1])
+                elif st[2][0] == "use" and st[2][1][0] in ("c", "m") and not st[2][1][1][1] and st[2][1][1][0] in e:
+                    e[l] = e[st[2][1][1][0]]
+                elif st[2][0] == "un" and st[2][1] == "Not" and st[2][2][0] in ("c", "m") and not st[2][2][1][1] and st[2][2][1][0] in e:
+                    e[l] = 1 - e[st[2][2][1][0]]
+                else:
+                    e.pop(l, None)
+        t = f.blocks[b]["t"]
+        if t[0] == "call" and not t[3][1]:
+            e.pop(t[3][0], None)
+        env2 = tuple(sorted(e.items()))
+        if t[0] == "switch" and t[1][0] in ("c", "m") and not t[1][1][1] and t[1][1][0] in e:
+            val = str(e[t[1][1][0]])
+            tg = [tb for v_, tb in t[2] if v_ == val]
+            work.append(((tg[0] if tg else t[3]), env2))
+        else:
+            for nb in f.succ(b):
+                work.append((nb, env2))
+    return out
